@@ -355,3 +355,21 @@ pub fn soup(d: &mut Dice<'_>, max_items: usize) -> String {
     }
     s
 }
+
+/// deepest bracket nesting of a text (byte scan; strings and comments are not excluded, so this
+/// is an upper bound). lelwel's front end is recursive descent: texts nested deeper than a few
+/// hundred levels are evaluated in a child process (see c12::deep_text_check).
+pub fn max_nesting(text: &str) -> usize {
+    let (mut d, mut m) = (0usize, 0usize);
+    for b in text.bytes() {
+        match b {
+            b'(' | b'[' => {
+                d += 1;
+                m = m.max(d);
+            }
+            b')' | b']' => d = d.saturating_sub(1),
+            _ => {}
+        }
+    }
+    m
+}
